@@ -5,10 +5,12 @@
    and, for the retention scripts of the correspondence family, the prefix
    computation of /repo/transaction.go Transaction.Clean.
 
-   Events are abstract: {id; db; coll; op}.  The identity of an event is its id
-   (Go: the *bson.D pointer stored in the oplog Set, which is never cloned or
-   replaced; `oplog.Index[s.last]` is a lookup by that identity).  The oplog is
-   the list of retained events in commit order.
+   Events are abstract: {id; db; coll; op}.  The id is the rank of the event's
+   `_id.ts` timestamp; ids are strictly increasing in commit order (C08).  The
+   oplog is the list of retained events in commit order.  A stream's position
+   (`Stream.last`) is the id of the last event it has passed; the catalog
+   records in `Catalog.Trimmed` the id of the newest event retention has ever
+   removed (ts_zero when none).
 
    Definitions only; the proofs are in Proofs/StreamProofs.v. *)
 From Lungo.Model Require Export Base.
@@ -53,9 +55,12 @@ Inductive serr : Type := ELost | ECtx.          (* ErrLostOplogPosition | ctx.Er
 Inductive token : Type := TokEvent (id : Z) | TokInvalidate.   (* event _id | {ts:"drop"} *)
 Inductive cur : Type := CurEvent (e : event) | CurInvalidate.  (* s.event *)
 
+(* the zero primitive.Timestamp: below every event id *)
+Definition ts_zero : Z := (-1)%Z.
+
 Record sstate : Type := mkS {
   sh : handle;             (* s.handle *)
-  slast : option Z;        (* s.last (identity of the event), None = nil *)
+  slast : Z;               (* s.last: id timestamp of the last passed event *)
   sdropped : bool;         (* s.dropped *)
   sclosed : bool;          (* s.closed *)
   serror : option serr;    (* s.error *)
@@ -82,32 +87,26 @@ Fixpoint find_event (id : Z) (l : oplog) : option event :=
   | e :: t => if Z.eqb (eid e) id then Some e else find_event id t
   end.
 
-Definition resolve_token (t : option token) (l : oplog) (cur : option Z) : option (option Z) :=
+Definition resolve_token (t : option token) (l : oplog) (cur : Z) : option Z :=
   match t with
   | None => Some cur
   | Some (TokEvent id) =>
       match find_event id l with
-      | Some e => Some (Some (eid e))
+      | Some e => Some (eid e)
       | None => None                       (* "unable to resume change stream" *)
       end
   | Some TokInvalidate => None             (* {ts:"drop"} equals no event _id *)
-  end.
-
-(* the startAt loop (engine.go:326-341): position just before the first event
-   whose clusterTime is at or after z; nil when that is the first retained
-   event; unchanged when every event is older *)
-Fixpoint start_at (z : Z) (prev : option Z) (l : oplog) (dflt : option Z) : option Z :=
-  match l with
-  | [] => dflt
-  | e :: t => if Z.leb z (eid e) then prev else start_at z (Some (eid e)) t dflt
   end.
 
 Record wopts : Type := mkW { w_resume : option token; w_after : option token; w_at : option Z }.
 
 Definition watch_now : wopts := mkW None None None.
 
-Definition watch (h : handle) (o : wopts) (log : oplog) : option sstate :=
-  let last0 := option_map eid (last_event log) in
+(* trimmed = e.catalog.Trimmed.  Default position: the newest event, or — empty
+   oplog — the newest event retention has removed.  StartAtOperationTime z:
+   timestampBefore(z), the greatest timestamp below z. *)
+Definition watch (h : handle) (o : wopts) (log : oplog) (trimmed : Z) : option sstate :=
+  let last0 := match last_event log with Some e => eid e | None => trimmed end in
   match resolve_token (w_resume o) log last0 with
   | None => None
   | Some last1 =>
@@ -116,7 +115,7 @@ Definition watch (h : handle) (o : wopts) (log : oplog) : option sstate :=
       | Some last2 =>
           let last3 := match w_at o with
                        | None => last2
-                       | Some z => start_at z None log last2
+                       | Some z => (z - 1)%Z
                        end in
           Some (mkS h last3 false false None None None)
       end
@@ -138,72 +137,67 @@ Inductive iter : Type :=
 | Continue            (* event out of scope: s.last advanced, `continue` *)
 | Park.               (* blocking call, nothing available: mutex released, goes to `select` *)
 
-(* `oplog.Index[s.last]` followed by `oplog.List[index+1:]` : the events after
-   the one identified by id, None when it is no longer in the oplog *)
-Fixpoint find_after (id : Z) (l : oplog) : option oplog :=
+(* `sort.Search(first event with id > s.last)` and `oplog.List[index+1:]`: the
+   events ahead of the stream.  The oplog is sorted by id, so the binary search
+   finds what this linear scan finds. *)
+Fixpoint after (last : Z) (l : oplog) : oplog :=
   match l with
-  | [] => None
-  | e :: t => if Z.eqb (eid e) id then Some t else find_after id t
+  | [] => []
+  | e :: t => if Z.leb (eid e) last then after last t else l
   end.
 
-Definition pending (s : sstate) (log : oplog) : option oplog :=
-  match slast s with
-  | None => Some log                 (* index = -1 *)
-  | Some id => find_after id log
-  end.
+Definition pending (s : sstate) (log : oplog) : oplog := after (slast s) log.
 
 Definition set_error (s : sstate) (e : serr) : sstate :=
   mkS (sh s) (slast s) (sdropped s) (sclosed s) (Some e) (scur s) (stok s).
 
-(* one pass through the loop body, lines 147-243 (everything done while
-   s.mutex is held; the oplog is the snapshot returned by s.oplog()).
+(* one pass through the loop body (everything done while s.mutex is held; log
+   and trimmed are the snapshot returned by s.oplog()).
    block: Next (true) or TryNext (false); ctxerr: ctx.Err() != nil *)
-Definition next_iter (block ctxerr : bool) (s : sstate) (log : oplog) : sstate * iter :=
-  (* 151-154: check validity *)
+Definition next_iter (block ctxerr : bool) (s : sstate) (log : oplog) (trimmed : Z) : sstate * iter :=
+  (* check validity *)
   if is_some (serror s) || sclosed s then (s, Return Closed)
-  (* 157-169: dropped -> synthesize invalidate, cancel, close *)
+  (* dropped -> synthesize invalidate, cancel, close *)
   else if sdropped s then
     (mkS (sh s) (slast s) (sdropped s) true (serror s) (Some CurInvalidate) (Some TokInvalidate),
      Return Invalidate)
+  (* an event after the position has been removed by retention *)
+  else if Z.ltb (slast s) trimmed then
+    (mkS (sh s) (slast s) (sdropped s) true (Some ELost) (scur s) (stok s), Return Lost)
   else
-    (* 172-186: locate s.last *)
     match pending s log with
-    | None =>
-        (mkS (sh s) (slast s) (sdropped s) true (Some ELost) (scur s) (stok s), Return Lost)
-    | Some (e :: _) =>
-        (* 189-228 *)
+    | e :: _ =>
         if in_scope (sh s) e then
-          (mkS (sh s) (Some (eid e)) (sdropped s || drops (sh s) e) (sclosed s) (serror s)
+          (mkS (sh s) (eid e) (sdropped s || drops (sh s) e) (sclosed s) (serror s)
                (Some (CurEvent e)) (Some (TokEvent (eid e))),
            Return (Event e))
         else
-          (mkS (sh s) (Some (eid e)) (sdropped s) (sclosed s) (serror s) (scur s) (stok s), Continue)
-    | Some [] =>
-        (* 231-243 *)
+          (mkS (sh s) (eid e) (sdropped s) (sclosed s) (serror s) (scur s) (stok s), Continue)
+    | [] =>
         if block then (s, Park)
         else ((if ctxerr then set_error s ECtx else s), Return Nothing)
     end.
 
 (* the whole call without blocking: iterate while `continue` *)
-Fixpoint next_fuel (fuel : nat) (ctxerr : bool) (s : sstate) (log : oplog) : sstate * res outcome :=
+Fixpoint next_fuel (fuel : nat) (ctxerr : bool) (s : sstate) (log : oplog) (trimmed : Z) : sstate * res outcome :=
   match fuel with
   | O => (s, OutOfFuel)
   | S f =>
-      match next_iter false ctxerr s log with
+      match next_iter false ctxerr s log trimmed with
       | (s', Return o) => (s', Ok o)
-      | (s', Continue) => next_fuel f ctxerr s' log
+      | (s', Continue) => next_fuel f ctxerr s' log trimmed
       | (s', Park) => (s', Unmodelled)        (* not reachable with block = false *)
       end
   end.
 
 (* TryNext.  Every `continue` consumes one event, so length log + 1 passes suffice
    (StreamProofs.next_total). *)
-Definition next (s : sstate) (log : oplog) : sstate * res outcome :=
-  next_fuel (S (List.length log)) false s log.
+Definition next (s : sstate) (log : oplog) (trimmed : Z) : sstate * res outcome :=
+  next_fuel (S (List.length log)) false s log trimmed.
 
 (* TryNext with a context that is already cancelled *)
-Definition next_cancelled (s : sstate) (log : oplog) : sstate * res outcome :=
-  next_fuel (S (List.length log)) true s log.
+Definition next_cancelled (s : sstate) (log : oplog) (trimmed : Z) : sstate * res outcome :=
+  next_fuel (S (List.length log)) true s log trimmed.
 
 (* the three ways out of the `select` (stream.go:245-263) *)
 Definition wake_chan_closed (s : sstate) : sstate :=     (* engine closed the channel *)
@@ -216,8 +210,14 @@ Definition close_stream (s : sstate) : sstate :=
   if sclosed s then s
   else mkS (sh s) (slast s) (sdropped s) true None None (stok s).
 
-(* retention removes a prefix (transaction.go:1128-1131) *)
+(* retention removes a prefix (Transaction.Clean) ... *)
 Definition trim (k : nat) (log : oplog) : oplog := skipn k log.
+(* ... and records the id of the newest removed event in Catalog.Trimmed *)
+Definition trimmed_after (k : nat) (log : oplog) (trimmed : Z) : Z :=
+  match last_event (firstn k log) with
+  | Some e => eid e
+  | None => trimmed
+  end.
 
 (* ------------------------------------------------------------------ *)
 (* Concurrent model: one stream, its consumer, committers, Close,      *)
@@ -242,6 +242,7 @@ Inductive kpc : Type :=           (* a goroutine in Stream.Close *)
 
 Record cstate : Type := mkC {
   c_log : oplog;                  (* e.catalog's oplog *)
+  c_trimmed : Z;                  (* e.catalog.Trimmed *)
   c_st : sstate;
   c_sig : bool;                   (* the 1-slot buffer of s.signal holds a value *)
   c_chclosed : bool;              (* s.signal closed by Engine.Close *)
@@ -277,7 +278,7 @@ Definition is_published (w : wpc) : bool := match w with WPublished => true | _ 
 Definition is_marked (k : kpc) : bool := match k with KMarked => true | _ => false end.
 
 Definition with_cons (s : cstate) (st : sstate) (reg : bool) (p : cpc) : cstate :=
-  mkC (c_log s) st (c_sig s) (c_chclosed s) (c_ctx s) reg (c_alive s) p (c_writers s) (c_closer s).
+  mkC (c_log s) (c_trimmed s) st (c_sig s) (c_chclosed s) (c_ctx s) reg (c_alive s) p (c_writers s) (c_closer s).
 
 Definition cstep (l : label) (s : cstate) : option cstate :=
   match l with
@@ -289,7 +290,7 @@ Definition cstep (l : label) (s : cstate) : option cstate :=
   | LCheck =>
       match c_cons s with
       | CRunning b =>
-          match next_iter b (c_ctx s) (c_st s) (c_log s) with
+          match next_iter b (c_ctx s) (c_st s) (c_log s) (c_trimmed s) with
           | (st', Return o) =>
               (* Invalidate and Lost call s.cancel(): the stream leaves e.streams *)
               let reg' := match o with Invalidate | Lost => false | _ => c_reg s end in
@@ -304,7 +305,7 @@ Definition cstep (l : label) (s : cstate) : option cstate :=
       | CParked =>
           if c_sig s then
             (* a buffered value is received first, also on a closed channel *)
-            Some (mkC (c_log s) (c_st s) false (c_chclosed s) (c_ctx s) (c_reg s) (c_alive s)
+            Some (mkC (c_log s) (c_trimmed s) (c_st s) false (c_chclosed s) (c_ctx s) (c_reg s) (c_alive s)
                       (CRunning true) (c_writers s) (c_closer s))
           else if c_chclosed s then
             Some (with_cons s (wake_chan_closed (c_st s)) false (CDone Closed))
@@ -329,7 +330,7 @@ Definition cstep (l : label) (s : cstate) : option cstate :=
       if c_alive s && negb (existsb is_published (c_writers s)) then
         match nth_error (c_writers s) i with
         | Some (WPending evs k) =>
-            Some (mkC (trim k (List.app (c_log s) evs)) (c_st s) (c_sig s) (c_chclosed s) (c_ctx s) (c_reg s)
+            Some (mkC (trim k (List.app (c_log s) evs)) (trimmed_after k (List.app (c_log s) evs) (c_trimmed s)) (c_st s) (c_sig s) (c_chclosed s) (c_ctx s) (c_reg s)
                       (c_alive s) (c_cons s) (set_nth i WPublished (c_writers s)) (c_closer s))
         | _ => None
         end
@@ -338,7 +339,7 @@ Definition cstep (l : label) (s : cstate) : option cstate :=
       match nth_error (c_writers s) i with
       | Some WPublished =>
           (* select { case stream.signal <- struct{}{}: default: } for the streams in e.streams *)
-          Some (mkC (c_log s) (c_st s) (c_sig s || c_reg s) (c_chclosed s) (c_ctx s) (c_reg s)
+          Some (mkC (c_log s) (c_trimmed s) (c_st s) (c_sig s || c_reg s) (c_chclosed s) (c_ctx s) (c_reg s)
                     (c_alive s) (c_cons s) (set_nth i WDone (c_writers s)) (c_closer s))
       | _ => None
       end
@@ -346,39 +347,39 @@ Definition cstep (l : label) (s : cstate) : option cstate :=
       match c_closer s with
       | KIdle =>
           if sclosed (c_st s) then
-            Some (mkC (c_log s) (c_st s) (c_sig s) (c_chclosed s) (c_ctx s) (c_reg s) (c_alive s)
+            Some (mkC (c_log s) (c_trimmed s) (c_st s) (c_sig s) (c_chclosed s) (c_ctx s) (c_reg s) (c_alive s)
                       (c_cons s) (c_writers s) KDone)
           else
-            Some (mkC (c_log s) (close_stream (c_st s)) (c_sig s) (c_chclosed s) (c_ctx s) false
+            Some (mkC (c_log s) (c_trimmed s) (close_stream (c_st s)) (c_sig s) (c_chclosed s) (c_ctx s) false
                       (c_alive s) (c_cons s) (c_writers s) KMarked)
       | _ => None
       end
   | LCloseSend =>
       match c_closer s with
       | KMarked =>
-          Some (mkC (c_log s) (c_st s) true (c_chclosed s) (c_ctx s) (c_reg s) (c_alive s)
+          Some (mkC (c_log s) (c_trimmed s) (c_st s) true (c_chclosed s) (c_ctx s) (c_reg s) (c_alive s)
                     (c_cons s) (c_writers s) KDone)
       | _ => None
       end
   | LCancel =>
-      Some (mkC (c_log s) (c_st s) (c_sig s) (c_chclosed s) true (c_reg s) (c_alive s)
+      Some (mkC (c_log s) (c_trimmed s) (c_st s) (c_sig s) (c_chclosed s) true (c_reg s) (c_alive s)
                 (c_cons s) (c_writers s) (c_closer s))
   | LEngineClose =>
       (* Kill needs e.mutex (no committer mid-broadcast); marking the stream
          needs s.mutex (Stream.Close holds it from mark to send) *)
       if c_alive s && negb (existsb is_published (c_writers s)) && negb (is_marked (c_closer s)) then
         if c_reg s && negb (sclosed (c_st s)) then
-          Some (mkC (c_log s) (wake_chan_closed (c_st s)) (c_sig s) true (c_ctx s) (c_reg s) false
+          Some (mkC (c_log s) (c_trimmed s) (wake_chan_closed (c_st s)) (c_sig s) true (c_ctx s) (c_reg s) false
                     (c_cons s) (c_writers s) (c_closer s))
         else
-          Some (mkC (c_log s) (c_st s) (c_sig s) (c_chclosed s) (c_ctx s) (c_reg s) false
+          Some (mkC (c_log s) (c_trimmed s) (c_st s) (c_sig s) (c_chclosed s) (c_ctx s) (c_reg s) false
                     (c_cons s) (c_writers s) (c_closer s))
       else None
   end.
 
 (* initial state: a stream just returned by Watch on oplog `log`, nobody running *)
-Definition cinit (log : oplog) (st : sstate) (writers : list (list event * nat)) : cstate :=
-  mkC log st false false false true true CIdle
+Definition cinit (log : oplog) (trimmed : Z) (st : sstate) (writers : list (list event * nat)) : cstate :=
+  mkC log trimmed st false false false true true CIdle
       (map (fun w => WPending (fst w) (snd w)) writers) KIdle.
 
 (* run a schedule; None when a step is not enabled *)
@@ -407,14 +408,17 @@ Fixpoint clean_count (len minS maxS : Z) (max_always : bool) (now : Z) (i : Z)
       if after_min && beyond_max then S (clean_count len minS maxS max_always now (i + 1) t) else O
   end.
 
-Definition clean (minS maxS : Z) (max_always : bool) (now : Z) (l : list (event * Z)) : list (event * Z) :=
-  skipn (clean_count (Z.of_nat (List.length l)) minS maxS max_always now 0 l) l.
+Definition clean (minS maxS : Z) (max_always : bool) (now : Z) (l : list (event * Z)) (trimmed : Z)
+  : list (event * Z) * Z :=
+  let k := clean_count (Z.of_nat (List.length l)) minS maxS max_always now 0 l in
+  (skipn k l, trimmed_after k (map fst l) trimmed).
 
 (* ------------------------------------------------------------------ *)
 (* Script runner of family `stream`                                    *)
 
 Record rworld : Type := mkR {
   r_log : list (event * Z);          (* retained events with their epoch *)
+  r_trimmed : Z;                     (* Catalog.Trimmed *)
   r_count : Z;                       (* events committed so far = next rank *)
   r_epoch : Z;
   r_streams : list (option sstate);  (* in the order of the watch steps; None = Watch failed *)
@@ -494,7 +498,10 @@ Fixpoint parse_wopts (w : rworld) (l : list sexp) (o : wopts) : option wopts :=
       end
   | SList [SAtom "at"; SAtom z] :: r =>
       match parse_Z z with
-      | Some z' => parse_wopts w r (mkW (w_resume o) (w_after o) (Some z'))
+      | Some z' =>
+          (* a rank that no event has yet stands for a fresh bsonkit.Now(): above
+             every event so far, below every later one *)
+          parse_wopts w r (mkW (w_resume o) (w_after o) (Some (Z.min z' (r_count w))))
       | None => None
       end
   | _ => None
@@ -520,15 +527,15 @@ Definition show_result (s : sstate) (r : res outcome) : string :=
   end.
 
 Definition set_streams (w : rworld) (l : list (option sstate)) : rworld :=
-  mkR (r_log w) (r_count w) (r_epoch w) l (r_min w) (r_max w) (r_always w).
+  mkR (r_log w) (r_trimmed w) (r_count w) (r_epoch w) l (r_min w) (r_max w) (r_always w).
 
-Definition set_rlog (w : rworld) (l : list (event * Z)) (n : Z) : rworld :=
-  mkR l n (r_epoch w) (r_streams w) (r_min w) (r_max w) (r_always w).
+Definition set_rlog (w : rworld) (l : list (event * Z)) (tr : Z) (n : Z) : rworld :=
+  mkR l tr n (r_epoch w) (r_streams w) (r_min w) (r_max w) (r_always w).
 
 Definition run_trynext (w : rworld) (ctxerr : bool) (i : nat) : rworld * string :=
   match nth_error (r_streams w) i with
   | Some (Some st) =>
-      let (st', r) := next_fuel (S (List.length (r_log w))) ctxerr st (rlog w) in
+      let (st', r) := next_fuel (S (List.length (r_log w))) ctxerr st (rlog w) (r_trimmed w) in
       (set_streams w (set_nth i (Some st') (r_streams w)), show_result st' r)
   | _ => (w, "NOSTREAM")
   end.
@@ -540,25 +547,26 @@ Definition run_step (w : rworld) (x : sexp) : option (rworld * string) :=
       | Some l =>
           (* engine.go:219-225: a transaction that changed nothing is not dirty:
              Commit returns before Clean *)
-          let log' := match l with
-                      | [] => r_log w
-                      | _ => clean (r_min w) (r_max w) (r_always w) (r_epoch w) (List.app (r_log w) l)
+          let '(log', tr') := match l with
+                      | [] => (r_log w, r_trimmed w)
+                      | _ => clean (r_min w) (r_max w) (r_always w) (r_epoch w) (List.app (r_log w) l) (r_trimmed w)
                       end in
-          let w' := set_rlog w log' (r_count w + Z.of_nat (List.length l)) in
+          let w' := set_rlog w log' tr' (r_count w + Z.of_nat (List.length l)) in
           Some (w', show_len w')
       | None => None
       end
   | SList [SAtom "tick"] =>
-      Some (mkR (r_log w) (r_count w) (r_epoch w + 1) (r_streams w) (r_min w) (r_max w) (r_always w), ".")
+      Some (mkR (r_log w) (r_trimmed w) (r_count w) (r_epoch w + 1) (r_streams w) (r_min w) (r_max w) (r_always w), ".")
   | SList [SAtom "trim"; SAtom k] =>
       match nat_of_atom k with
-      | Some k' => let w' := set_rlog w (skipn k' (r_log w)) (r_count w) in Some (w', show_len w')
+      | Some k' => let w' := set_rlog w (skipn k' (r_log w)) (trimmed_after k' (rlog w) (r_trimmed w)) (r_count w) in
+                   Some (w', show_len w')
       | None => None
       end
   | SList (SAtom "watch" :: sc :: opts) =>
       match parse_scope sc, parse_wopts w opts watch_now with
       | Some h, Some o =>
-          match watch h o (rlog w) with
+          match watch h o (rlog w) (r_trimmed w) with
           | Some st => Some (set_streams w (List.app (r_streams w) [Some st]), "W")
           | None => Some (set_streams w (List.app (r_streams w) [None]), "ERR")
           end
@@ -603,7 +611,7 @@ Definition run_stream (x : sexp) : option string :=
   | SList (SAtom "stream" :: SList [SAtom "ret"; SAtom mn; SAtom mx; SAtom al] :: steps) =>
       match parse_Z mn, parse_Z mx, parse_Z al with
       | Some mn', Some mx', Some al' =>
-          match run_steps (mkR [] 0 0 [] mn' mx' (negb (al' =? 0))) steps with
+          match run_steps (mkR [] ts_zero 0 0 [] mn' mx' (negb (al' =? 0))) steps with
           | Some out => Some (join_sp out)
           | None => Some "BAD-CASE"%string
           end
@@ -641,6 +649,7 @@ Definition show_cons (s : cstate) : string :=
 
 Record qworld : Type := mkQ {
   q_pre : list event;            (* before the watch step: the oplog *)
+  q_tr : Z;                      (* ... and Catalog.Trimmed *)
   q_count : Z;
   q_c : option cstate            (* after the watch step *)
 }.
@@ -649,7 +658,7 @@ Definition steps_opt (ls : list label) (s : cstate) : cstate :=
   match crun ls s with Some s' => s' | None => s end.
 
 Definition add_writer (s : cstate) (w : wpc) : cstate :=
-  mkC (c_log s) (c_st s) (c_sig s) (c_chclosed s) (c_ctx s) (c_reg s) (c_alive s) (c_cons s)
+  mkC (c_log s) (c_trimmed s) (c_st s) (c_sig s) (c_chclosed s) (c_ctx s) (c_reg s) (c_alive s) (c_cons s)
       (List.app (c_writers s) [w]) (c_closer s).
 
 Definition call_next (block : bool) (s : cstate) : cstate :=
@@ -667,20 +676,21 @@ Definition run_qstep (w : qworld) (x : sexp) : option (qworld * string) :=
       match parse_events (q_count w) 0 evs with
       | Some l =>
           let pre := List.app (q_pre w) (map fst l) in
-          Some (mkQ pre (q_count w + Z.of_nat (List.length l)) None, "L" ++ show_Z (Z.of_nat (List.length pre)))
+          Some (mkQ pre (q_tr w) (q_count w + Z.of_nat (List.length l)) None, "L" ++ show_Z (Z.of_nat (List.length pre)))
       | None => None
       end
   | None, SList [SAtom "trim"; SAtom k] =>
       match nat_of_atom k with
       | Some k' => let pre := skipn k' (q_pre w) in
-                   Some (mkQ pre (q_count w) None, "L" ++ show_Z (Z.of_nat (List.length pre)))
+                   Some (mkQ pre (trimmed_after k' (q_pre w) (q_tr w)) (q_count w) None,
+                         "L" ++ show_Z (Z.of_nat (List.length pre)))
       | None => None
       end
   | None, SList [SAtom "watch"; sc] =>
       match parse_scope sc with
       | Some h =>
-          match watch h watch_now (q_pre w) with
-          | Some st => Some (mkQ (q_pre w) (q_count w) (Some (cinit (q_pre w) st [])), "W")
+          match watch h watch_now (q_pre w) (q_tr w) with
+          | Some st => Some (mkQ (q_pre w) (q_tr w) (q_count w) (Some (cinit (q_pre w) (q_tr w) st [])), "W")
           | None => None
           end
       | None => None
@@ -691,7 +701,7 @@ Definition run_qstep (w : qworld) (x : sexp) : option (qworld * string) :=
       | Some l =>
           let i := List.length (c_writers s) in
           let s' := steps_opt [LPublish i; LSignal i] (add_writer s (WPending (map fst l) 0)) in
-          Some (mkQ (q_pre w) (q_count w + Z.of_nat (List.length l)) (Some s'), qlen s')
+          Some (mkQ (q_pre w) (q_tr w) (q_count w + Z.of_nat (List.length l)) (Some s'), qlen s')
       | None => None
       end
   | Some s, SList (SAtom "publish" :: _ :: evs) =>
@@ -700,12 +710,12 @@ Definition run_qstep (w : qworld) (x : sexp) : option (qworld * string) :=
       | Some l =>
           let i := List.length (c_writers s) in
           let s' := steps_opt [LPublish i] (add_writer s (WPending (map fst l) 0)) in
-          Some (mkQ (q_pre w) (q_count w + Z.of_nat (List.length l)) (Some s'), "P")
+          Some (mkQ (q_pre w) (q_tr w) (q_count w + Z.of_nat (List.length l)) (Some s'), "P")
       | None => None
       end
   | Some s, SList [SAtom "signal"] =>
       let s' := steps_opt [LSignal (pred (List.length (c_writers s)))] s in
-      Some (mkQ (q_pre w) (q_count w) (Some s'), qlen s')
+      Some (mkQ (q_pre w) (q_tr w) (q_count w) (Some s'), qlen s')
   | Some s, SList [SAtom "trim"; SAtom k] =>
       match nat_of_atom k with
       | Some k' =>
@@ -713,13 +723,13 @@ Definition run_qstep (w : qworld) (x : sexp) : option (qworld * string) :=
           else
             let i := List.length (c_writers s) in
             let s' := steps_opt [LPublish i; LSignal i] (add_writer s (WPending [] k')) in
-            Some (mkQ (q_pre w) (q_count w) (Some s'), qlen s')
+            Some (mkQ (q_pre w) (q_tr w) (q_count w) (Some s'), qlen s')
       | None => None
       end
   | Some s, SList [SAtom "next"] =>
-      let s' := call_next true s in Some (mkQ (q_pre w) (q_count w) (Some s'), show_cons s')
+      let s' := call_next true s in Some (mkQ (q_pre w) (q_tr w) (q_count w) (Some s'), show_cons s')
   | Some s, SList [SAtom "trynext"] =>
-      let s' := call_next false s in Some (mkQ (q_pre w) (q_count w) (Some s'), show_cons s')
+      let s' := call_next false s in Some (mkQ (q_pre w) (q_tr w) (q_count w) (Some s'), show_cons s')
   | Some s, SList [SAtom "await"] =>
       match c_cons s with
       | CParked =>
@@ -727,23 +737,23 @@ Definition run_qstep (w : qworld) (x : sexp) : option (qworld * string) :=
           if by_sig && c_ctx s then Some (w, "RACE")       (* Go's select picks at random: not generated *)
           else if by_sig then
             let s' := run_checks (S (S (List.length (c_log s)))) (steps_opt [LWake] s) in
-            Some (mkQ (q_pre w) (q_count w) (Some s'), show_cons s')
+            Some (mkQ (q_pre w) (q_tr w) (q_count w) (Some s'), show_cons s')
           else if c_ctx s then
             let s' := steps_opt [LWakeCtx] s in
-            Some (mkQ (q_pre w) (q_count w) (Some s'), show_cons s')
+            Some (mkQ (q_pre w) (q_tr w) (q_count w) (Some s'), show_cons s')
           else Some (w, "BLOCKED")
       | _ => Some (w, "NOT-PARKED")
       end
   | Some s, SList [SAtom "close"] =>
-      let s1 := mkC (c_log s) (c_st s) (c_sig s) (c_chclosed s) (c_ctx s) (c_reg s) (c_alive s) (c_cons s)
+      let s1 := mkC (c_log s) (c_trimmed s) (c_st s) (c_sig s) (c_chclosed s) (c_ctx s) (c_reg s) (c_alive s) (c_cons s)
                     (c_writers s) KIdle in       (* a new goroutine calls Close *)
       let s2 := steps_opt [LCloseMark] s1 in
       let s3 := steps_opt [LCloseSend] s2 in
-      Some (mkQ (q_pre w) (q_count w) (Some s3), "-")
+      Some (mkQ (q_pre w) (q_tr w) (q_count w) (Some s3), "-")
   | Some s, SList [SAtom "cancel"] =>
-      Some (mkQ (q_pre w) (q_count w) (Some (steps_opt [LCancel] s)), "-")
+      Some (mkQ (q_pre w) (q_tr w) (q_count w) (Some (steps_opt [LCancel] s)), "-")
   | Some s, SList [SAtom "engineclose"] =>
-      Some (mkQ (q_pre w) (q_count w) (Some (steps_opt [LEngineClose] s)), "-")
+      Some (mkQ (q_pre w) (q_tr w) (q_count w) (Some (steps_opt [LEngineClose] s)), "-")
   | _, _ => None
   end.
 
@@ -761,7 +771,7 @@ Fixpoint run_qsteps (w : qworld) (l : list sexp) : option (list string) :=
 Definition run_sched (x : sexp) : option string :=
   match x with
   | SList (SAtom "sched" :: steps) =>
-      match run_qsteps (mkQ [] 0 None) steps with
+      match run_qsteps (mkQ [] ts_zero 0 None) steps with
       | Some out => Some (join_sp out)
       | None => Some "BAD-CASE"
       end
